@@ -236,10 +236,11 @@ def check_selection(ctx, g, index, res, exc):
         ctx.count("selection:inadmissible-index-shape")
         return
     subj = f"{subject_of(g) if not is_oned else cls}[{kind}]"
-    has_constraint = (is_oned and g.domain is not None) or (cls == "PeriodicGrid" and g.realvecs.size > 0)
+    # a OneDGrid with a domain and a PeriodicGrid (with or without lattice) cannot be constructed with zero points at all
+    has_constraint = (is_oned and g.domain is not None) or cls == "PeriodicGrid"
     if ew.size == 0 and has_constraint:
         how = f"raised {type(exc).__name__}" if exc is not None else "returned"
-        key = f"empty-selection:{'OneDGrid-with-domain' if is_oned else 'PeriodicGrid-with-lattice'}:{how}"
+        key = f"empty-selection:{'OneDGrid-with-domain' if is_oned else 'PeriodicGrid'}:{how}"
         if key not in ctx.notes:
             ctx.observe("empty selection on a grid type that cannot hold zero points - not decided", cls=cls, outcome=how)
         ctx.count(key)
@@ -531,7 +532,7 @@ def _fmt_radius(rng, r):
     u = rng.integers(4)
     if u == 0:
         return np.float64(r)
-    if u == 1 and r == int(r) and np.isfinite(r):
+    if u == 1 and np.isfinite(r) and r == int(r):
         return int(r)
     return float(r)
 
@@ -625,6 +626,18 @@ def do_set_points(ctx, g):
         new = old.copy()
         j = rng.integers(0, n, max(1, n // 4))
         new[j] = new[j] + rng.normal(size=new[j].shape) * (1.0 + np.abs(old).max())
+    dom = getattr(g, "domain", None)
+    if dom is not None and old.ndim == 1:
+        # stay inside the declared domain of a OneDGrid (the setter does not re-validate, selection does)
+        lo, hi = float(dom[0]), float(dom[1])
+        if np.isfinite(lo) and np.isfinite(hi):
+            a, b = np.sort(rng.uniform(lo, hi, 2))
+            span = float(np.ptp(new)) or 1.0
+            new = a + (b - a) * (new - new.min()) / span
+        elif np.isfinite(lo):
+            new = lo + np.abs(new - lo)
+        elif np.isfinite(hi):
+            new = hi - np.abs(new - hi)
     new = np.ascontiguousarray(new, dtype=float).reshape(old.shape)
     with ctx.guard("setter-accepts-same-shape", subject_of(g) + ".points"):
         g.points = new
@@ -743,7 +756,185 @@ def run_case(ctx, family, params):
         return run_witness(ctx, params["name"])
     if family == "selection":
         return run_selection(ctx, params)
-    with ctx.guard("constructible", family):
+    try:
         g = build(ctx, params)
-    if not ctx.guard  # pragma: no cover
+    except core.MonitorError:
+        raise
+    except Exception as exc:
+        if core.is_library_exception(exc):
+            ctx.discard(f"instance not constructible: {type(exc).__name__}: {exc}")
+            return
+        raise
+    if not np.all(np.isfinite(np.asarray(g.points))):
+        ctx.discard("instance has non-finite points")
         return
+    nops = int(ctx.rng.integers(5, 31))
+    run_history(ctx, g, nops)
+
+
+def _lattice(rng, dim, nl):
+    """nl well-conditioned lattice vectors in dim dimensions (rows)."""
+    while True:
+        a = rng.normal(size=(nl, dim)) * np.exp(rng.uniform(-1, 1))
+        if nl == 0:
+            return a
+        s = np.linalg.svd(a, compute_uv=False)
+        if s.min() > 0.2 * s.max():
+            return a
+
+
+def build_selection_target(ctx, p):
+    from grid.basegrid import Grid, OneDGrid
+    from grid.periodicgrid import PeriodicGrid
+
+    rng = ctx.rng
+    t = p["t"]
+    if t == "rule":
+        return _rule(p["rule"], rng)
+    n = int(rng.choice([1, 2, 5, 12, 40]))
+    if t == "OneDGrid":
+        pts = np.sort(rng.uniform(0.0, 5.0, n))
+        dom = {"none": None, "finite": (-0.5, 5.5), "semi": (0, np.inf)}[p["domain"]]
+        return OneDGrid(pts, rng.uniform(0, 1, n), dom)
+    dimcode = str(p["dim"])
+    dim = int(dimcode[0])
+    pts = _shape_points(rng.uniform(-3, 3, (n, dim)), dimcode)
+    w = rng.uniform(0, 1, n)
+    if t == "Grid":
+        return Grid(pts, w)
+    nl = int(p["nl"])
+    if nl == 0:
+        rv = None if rng.random() < 0.5 else np.zeros((0,) + pts.shape[1:])
+    else:
+        rv = _lattice(rng, dim, nl)
+        if dimcode == "1":
+            rv = rv.reshape(1)
+    return PeriodicGrid(pts, w, rv, wrap=bool(p["wrap"]))
+
+
+def run_selection(ctx, params):
+    g = build_selection_target(ctx, params)
+    ctx.case_note("class", type(g).__name__)
+    ctx.case_note("N", int(g.size))
+    for kind in SEL_KINDS:
+        sub = do_select(ctx, g, kind, then_query=True)
+        if sub is not None and getattr(sub, "size", 0) > 1 and ctx.rng.random() < 0.3:
+            do_select(ctx, sub, None, then_query=False)  # selection of a selection
+
+
+def run_witness(ctx, name):
+    """Deterministic regressions (independent of the seed): inputs of the four repaired C10 defects and friends."""
+    from grid.atomgrid import AtomGrid
+    from grid.basegrid import Grid, OneDGrid
+    from grid.becke import BeckeWeights
+    from grid.cubic import Tensor1DGrids, UniformGrid
+    from grid.molgrid import MolGrid
+    from grid.onedgrid import GaussChebyshev, GaussLaguerre, GaussLegendre
+    from grid.periodicgrid import PeriodicGrid
+
+    rng = np.random.default_rng(20250925)
+    p3 = rng.uniform(-1, 1, (40, 3))
+    p2 = rng.uniform(-1, 1, (30, 2))
+    p1 = rng.uniform(-1, 1, 25)
+    w = lambda n: np.linspace(0.5, 1.5, n)  # noqa: E731
+    rg = GaussLaguerre(6)
+    at = AtomGrid(rg, degrees=[3, 5, 7, 5, 3, 3], center=np.array([1.0, 2.0, -3.0]))
+    at2 = AtomGrid(rg, degrees=[5], center=np.array([0.0, 0.0, 1.0]), rotate=3)
+    ug = UniformGrid(np.array([0.5, -0.5, 0.0]), np.array([[0.3, 0.0, 0.0], [0.1, 0.3, 0.0], [0.0, 0.05, 0.25]]), np.array([3, 4, 5]))
+    tg = Tensor1DGrids(GaussLegendre(4), GaussChebyshev(3))
+    grids = {
+        "Grid1": Grid(p1.copy(), w(25)), "Grid1c": Grid(p1.reshape(-1, 1).copy(), w(25)), "Grid2": Grid(p2.copy(), w(30)), "Grid3": Grid(p3.copy(), w(40)),
+        "GaussLegendre": GaussLegendre(7), "OneDGrid": OneDGrid(np.sort(p1) + 1.0, w(25), (0, np.inf)), "AtomGrid": at, "UniformGrid": ug, "Tensor1DGrids": tg,
+        "PeriodicGrid0-1": PeriodicGrid(p1.copy(), w(25)), "PeriodicGrid0-3": PeriodicGrid(p3.copy(), w(40)),
+        "MolGrid": MolGrid(np.array([1, 8]), [at, at2], BeckeWeights(), store=True),
+    }  # fmt: skip
+
+    def far(g):
+        p = np.asarray(g.points)
+        return 1e3 if p.ndim == 1 else np.full(p.shape[1], 1e3)
+
+    if name == "empty-ball":
+        for g in grids.values():
+            for r in (0.5, 0.0, 1e-12):
+                _call(ctx, lambda: g.get_localgrid(far(g), r))
+            # tiny sphere between the points (centre inside the hull)
+            p = np.asarray(g.points).reshape(g.size, -1)
+            c = 0.5 * (p[0] + p[1]) if g.size > 1 else p[0] + 1.0
+            dmin = np.linalg.norm(p - c, axis=1).min()
+            if dmin > 0:
+                cc = c if np.asarray(g.points).ndim == 2 else float(c[0])
+                _call(ctx, lambda: g.get_localgrid(cc, 0.5 * dmin))
+    elif name == "numpy-int-index":
+        targets = [grids[k] for k in ("Grid1", "Grid1c", "Grid2", "Grid3", "GaussLegendre", "OneDGrid", "PeriodicGrid0-1", "PeriodicGrid0-3")]
+        targets.append(PeriodicGrid(p1.copy(), w(25), np.array([2.0])))
+        targets.append(PeriodicGrid(p3.copy(), w(40), np.array([[2.0, 0, 0], [0.3, 2.0, 0.0]]), wrap=True))
+        for g in targets:
+            for tp in (np.int8, np.int16, np.int32, np.int64, np.intp, np.uint8, np.uint32, np.uint64):
+                _call(ctx, lambda: g[tp(2)])
+            _call(ctx, lambda: g[np.int64(-1)])
+            _call(ctx, lambda: g[3])
+            _call(ctx, lambda: g[np.arange(5)[2]])  # element of an integer array: the usual source of NumPy integers
+    elif name == "stale-tree":
+        for key in ("Grid1", "Grid1c", "Grid2", "Grid3", "GaussLegendre", "UniformGrid", "Tensor1DGrids", "PeriodicGrid0-1", "PeriodicGrid0-3", "MolGrid"):
+            g = grids[key]
+            p = np.asarray(g.points)
+            c = p[0] if p.ndim == 2 else float(p[0])
+            ext = float(np.abs(p - p.mean(axis=0)).max())
+            _call(ctx, lambda: g.get_localgrid(c, 0.6 * ext))  # builds the tree
+            g.points = p + 10.0 * ext
+            mark(g, "points-reassign")
+            _call(ctx, lambda: g.get_localgrid(c, 0.6 * ext))  # old place: now empty
+            _call(ctx, lambda: g.get_localgrid(c + 10.0 * ext, 0.6 * ext))  # new place
+            g.points = np.ascontiguousarray(np.asarray(g.points)[::-1])  # same set, reversed index mapping
+            _call(ctx, lambda: g.get_localgrid(c + 10.0 * ext, 0.6 * ext))
+            _call(ctx, lambda: g.get_localgrid(c + 10.0 * ext, np.inf)) if "Periodic" not in key else None
+    elif name == "atomgrid-centre":
+        for g in (at, at2, grids["MolGrid"][0], AtomGrid.from_preset(atnum=6, preset="coarse", rgrid=GaussLaguerre(8), center=np.array([-4.0, 0.5, 9.0]))):
+            cen = np.asarray(g.center, dtype=float)
+            for c in (cen, cen + 0.3, np.zeros(3), -cen):
+                for r in (0.7, 2.5, 40.0, np.inf):
+                    _call(ctx, lambda: g.get_localgrid(c, r))
+            ctx.check("points-match-parent", "AtomGrid", bool(np.abs(np.asarray(g.points).mean(axis=0) - cen).max() < np.abs(cen).max() + 5.0), sig="witness-not-centred")
+    elif name == "inf-and-huge":
+        for key, g in grids.items():
+            p = np.asarray(g.points)
+            c = p.mean(axis=0)
+            c = c if p.ndim == 2 else float(c)
+            if "Periodic" not in key:
+                _call(ctx, lambda: g.get_localgrid(c, np.inf))
+                _call(ctx, lambda: g.get_localgrid(c, float("inf")))
+            _call(ctx, lambda: g.get_localgrid(c, 1e12))
+            _call(ctx, lambda: g.get_localgrid(c, 10**6))
+    elif name == "duplicates-and-ties":
+        q = np.array([[0.0, 0, 0], [1.0, 0, 0], [1.0, 0, 0], [0, 2.0, 0], [0, 0, -1.0], [0.0, 0, 0], [3.0, 4.0, 0.0]])
+        g = Grid(q, np.arange(1.0, 8.0))
+        for c in (np.zeros(3), np.array([1.0, 0, 0]), np.array([0.5, 0.5, 0.5])):
+            for r in (0.0, 1e-9, 0.999999, 1.0, 1.000001, 2.0, 5.0, 5.0000001):
+                _call(ctx, lambda: g.get_localgrid(c, r))
+        g1 = Grid(np.array([0.0, 0.5, 0.5, 1.0, -1.0]), np.ones(5))
+        for r in (0.0, 0.25, 0.5, 0.50000001, 1.0, 1.5):
+            _call(ctx, lambda: g1.get_localgrid(0.0, r))
+    elif name == "size-one":
+        for g in (Grid(np.array([0.3]), np.array([2.0])), Grid(np.array([[0.3, 1.0]]), np.array([2.0])), Grid(np.array([[0.3, 1.0, -2.0]]), np.array([2.0])), PeriodicGrid(np.array([[0.3, 1.0]]), np.array([2.0]))):
+            p = np.asarray(g.points)
+            c0 = p[0] if p.ndim == 2 else float(p[0])
+            for c in (c0, c0 + 1.0):
+                for r in (0.0, 0.5, 1.5, 1e9):
+                    _call(ctx, lambda: g.get_localgrid(c, r))
+            _call(ctx, lambda: g[0])
+            _call(ctx, lambda: g[-1])
+            _call(ctx, lambda: g[0:1])
+    elif name == "weights-follow":
+        for key in ("Grid3", "GaussLegendre", "AtomGrid", "MolGrid", "UniformGrid", "PeriodicGrid0-3"):
+            g = grids[key]
+            p = np.asarray(g.points)
+            c = p[1] if p.ndim == 2 else float(p[1])
+            ext = float(np.abs(p - p.mean(axis=0)).max())
+            _call(ctx, lambda: g.get_localgrid(c, 0.8 * ext))
+            g.weights = np.asarray(g.weights) * -3.0 + 1.0
+            mark(g, "weights-reassign")
+            _call(ctx, lambda: g.get_localgrid(c, 0.8 * ext))
+            if "Periodic" not in key:
+                _call(ctx, lambda: g.get_localgrid(c, np.inf))
+    else:
+        raise core.MonitorError("unknown witness " + name)
